@@ -8,7 +8,7 @@
   * the expression is a classifier `f i j k : Bool` ("the value at the centre of global voxel
     (i,j,k) is < 0", NaN counts as not inside, exactly the test `out[index] < 0` of `pixels`);
   * the interval evaluation of a view is an oracle `I : View → IState` read off the way `recurse`
-    reads it: `isFilled()` first, then `isEmpty()`, otherwise ambiguous;
+    reads it: filled iff `isSafe() && isFilled()`, else empty iff `isEmpty()`, otherwise ambiguous;
   * voxel centre heights are `zr k : Int` (an order-preserving key of the float `pts.z()[k]`), depth
     pixels are such keys too, so every float comparison of the code (`<`, `>=`) is an `Int` comparison;
   * float view bounds (`lower/upper/middle`) are not modelled – they only feed the interval oracle;
@@ -173,7 +173,8 @@ def fillUpd (zr : Nat → Int) (v : View) (d : Int) : Int := if d < top zr v the
 
 def fill (zr : Nat → Int) (v : View) (m : Img) : Img := blockMap (fun _ _ => fillUpd zr v) v m
 
-/-- What `recurse` does with the interval result: `if (out.isFilled()) … else if (!out.isEmpty()) …`. -/
+/-- What `recurse` does with the interval result:
+    `if (out.isSafe() && out.isFilled()) … else if (!out.isEmpty()) …`. -/
 inductive IState | filled | empty | ambiguous
   deriving DecidableEq, Repr
 
